@@ -1,25 +1,20 @@
 package schist
 
-type storageShadow struct{}
-type minerShadow struct{}
-type vestingShadow struct{}
 type zcnShadow struct{}
 type multisigShadow struct{}
 
-func newStorageShadow() *storageShadow   { return &storageShadow{} }
-func newMinerShadow() *minerShadow       { return &minerShadow{} }
-func newVestingShadow() *vestingShadow   { return &vestingShadow{} }
 func newZcnShadow() *zcnShadow           { return &zcnShadow{} }
 func newMultisigShadow() *multisigShadow { return &multisigShadow{} }
 
-func minerOps() []OpDef    { return nil }
-func vestingOps() []OpDef  { return nil }
 func zcnOps() []OpDef      { return nil }
 func multisigOps() []OpDef { return nil }
-func storageOps() []OpDef  { return nil }
 func govOps() []OpDef      { return nil }
 
-func ledgerMonitors() []Monitor { return nil }
+func ledgerMonitors() []Monitor {
+	return []Monitor{
+		{"C16", "vesting", monC16},
+		{"C17", "faucet", monC17},
+	}
+}
 
-func setupHistory(h *Hist, mons []Monitor) {}
-func endHistory(h *Hist)                   {}
+func endHistory(h *Hist) {}
